@@ -158,7 +158,13 @@ class NameLookupRewriteVisitor(NodeTransformerBase):
 
     def visit_FunctionDef(self, node: ast.FunctionDef) -> ast.AST:
         self.scopes[-1].add(node.name)
-        return super().generic_visit(node)
+
+        # The parameters are names of the function only
+        self.scopes.append(set(self.scopes[-1]))
+        try:
+            return super().generic_visit(node)
+        finally:
+            self.scopes.pop()
 
     def visit_alias(self, node: ast.alias) -> ast.AST:
         name = node.asname if node.asname is not None else node.name
